@@ -309,6 +309,35 @@ pub fn all_cases() -> Vec<Case> {
         cj["servers"][0].as_object_mut().unwrap().remove("cipher");
         v.push(Case { class: "unknown-cipher".into(), label: "client/cipher missing".into(), server_json: server_json("shadowsocks", "aes-256-gcm", Some("tcp"), &pw, &[], false), client_json: cj.to_string(), expect: None, failing_side: "client".into(), canary_tcp: false, canary_udp: false });
     }
+    // H. the ws section as the configuration allows it: path omitted, empty, with a query, with a trailing slash - the same
+    //    value on both sides carries the flow (the section documents no constraint on the path)
+    for (proto, cipher) in [("shadowsocks", "aes-256-gcm"), ("trojan", "aes-128-gcm"), ("vmess", "aes-128-gcm")] {
+        for (label, ws) in [
+            ("no-path", serde_json::json!({"header": {"Host": "sim.test"}})),
+            ("empty-section", serde_json::json!({})),
+            ("query", serde_json::json!({"header": {"Host": "sim.test"}, "path": "/ws?ed=2048"})),
+            ("deep", serde_json::json!({"header": {"Host": "sim.test"}, "path": "/a/b/c/"})),
+            ("root", serde_json::json!({"path": "/"})),
+        ] {
+            for with_ssl in [false, true] {
+                let (pw_s, pw_c, users) = match proto {
+                    "vmess" => {
+                        let id = gen_uuid(&mut g);
+                        ("unused".to_owned(), id.clone(), vec![("u".to_owned(), id)])
+                    }
+                    _ => {
+                        let k = key_for(&mut g, cipher);
+                        (k.clone(), k, vec![])
+                    }
+                };
+                let mut sj: serde_json::Value = serde_json::from_str(&server_json(proto, cipher, if proto == "shadowsocks" { Some("tcp") } else { None }, &pw_s, &users, with_ssl)).unwrap();
+                let mut cj: serde_json::Value = serde_json::from_str(&client_json(proto, cipher, Some("tcp"), &pw_c, with_ssl)).unwrap();
+                sj[0]["ws"] = ws.clone();
+                cj["servers"][0]["ws"] = ws.clone();
+                v.push(Case { class: "ws-section".into(), label: format!("{proto}/{label}/{}", if with_ssl { "wss" } else { "ws" }), server_json: sj.to_string(), client_json: cj.to_string(), expect: Some((true, false, true, false)), failing_side: String::new(), canary_tcp: true, canary_udp: false });
+            }
+        }
+    }
     // G. undocumented cipher strings on VMess and Trojan entries: the name is part of every entry, whatever the protocol
     //    does with it - a misspelt or foreign name must stop start-up there too (never a silent aes-128-gcm)
     for proto in ["vmess", "trojan"] {
